@@ -115,7 +115,7 @@ var verifC03Priors = []verifC03Prior{
 	{"reset-after-full", false, -2},
 	{"putget-after-full", true, -2},
 	{"reset-after-1-byte", false, 1},
-	{"putget-after-1-byte", true, 1},     // not used by the current tiers
+	{"putget-after-1-byte", true, 1},    // not used by the current tiers
 	{"reset-after-65-bytes", false, 65}, // not used by the current tiers
 	{"putget-after-half+1", true, -3},
 }
@@ -259,8 +259,26 @@ func verifC03Split(k int, c []int) []int {
 
 func verifC03NumSplits(c []int) int { return 1 + len(c) + len(c)*(len(c)+1)/2 }
 
-func TestVerifC03Data(t *testing.T) {
+func TestVerifC03Data(t *testing.T) { verifC03DataRun(t, false) }
+
+// Same enumeration, but every Write is issued from one scratch buffer that the caller
+// overwrites (0xAA) as soon as Write has returned and re-uses for the next Write - the
+// io.Copy pattern. io.Writer forbids the hasher to retain the slice, so the result must
+// not change. The spec runs this harness with GOMAXPROCS=1: the section workers a Write
+// spawns then cannot run before the caller has overwritten its buffer, which makes the
+// outcome of a hasher that does retain the slice the same in every run.
+func TestVerifC03DataScratch(t *testing.T) { verifC03DataRun(t, true) }
+
+func verifC03DataRun(t *testing.T, scratch bool) {
 	confs := verifC03Confs()
+	name := "C03-data"
+	if scratch {
+		name = "C03-data-scratch-writes"
+		for i := range confs {
+			confs[i].spans = []int{1}
+			confs[i].priors = []int{0, 1}
+		}
+	}
 	params := map[string]interface{}{
 		"spans":       verifC03SpanNames,
 		"splits":      "one write; every single cut; every pair of cuts c1<=c2 from the cut set (equal cuts / cuts at 0 or l are empty writes)",
@@ -287,7 +305,12 @@ func TestVerifC03Data(t *testing.T) {
 			flat = append(flat, [2]int{ci, li})
 		}
 	}
-	mc.Run(t, mc.Config{ID: "C03", Name: "C03-data", MaxDev: -1, ShardLevels: 1, Params: params}, func(x *mc.X) {
+	if scratch {
+		params["write_mode"] = "every Write (prior, observed, post) from one scratch buffer that is filled with 0xAA right after Write returns and re-used for the next Write"
+	} else {
+		params["write_mode"] = "Write from slices of one immutable array"
+	}
+	mc.Run(t, mc.Config{ID: "C03", Name: name, MaxDev: -1, ShardLevels: 1, Params: params}, func(x *mc.X) {
 		// (geometry, length) is one flattened first choice so that shards balance
 		gl := flat[x.Choose(len(flat))]
 		conf := confs[gl[0]]
@@ -303,6 +326,23 @@ func TestVerifC03Data(t *testing.T) {
 		x.Check(h.Capacity() == capacity, "capacity", "segments %d: Capacity()=%d, want 32*pow2ceil = %d", conf.segs, h.Capacity(), capacity)
 		x.Logf("segments=%d capacity=%d length=%d span=%s split=%v prior=%s", conf.segs, capacity, l, verifC03SpanNames[spanKind], split, prior.name)
 
+		// write mode
+		var scratchBuf []byte
+		if scratch {
+			scratchBuf = make([]byte, capacity)
+		}
+		write := func(p []byte) (int, error) {
+			if !scratch {
+				return h.Write(p)
+			}
+			buf := scratchBuf[:len(p)]
+			copy(buf, p)
+			n, err := h.Write(buf)
+			for i := range buf {
+				buf[i] = 0xAA // the caller's buffer is its own again once Write has returned
+			}
+			return n, err
+		}
 		reuse := func(putget bool) {
 			if putget {
 				old := h.bmt
@@ -332,11 +372,11 @@ func TestVerifC03Data(t *testing.T) {
 			pd := verifC03Data(pl, 7)
 			pspan := []byte{0xee, 0xee, 0xee, 0xee, 0xee, 0xee, 0xee, 0xee}
 			h.SetHeader(pspan)
-			_, err := h.Write(pd)
+			_, err := write(pd)
 			x.Check(err == nil, "write-error", "prior Write: %v", err)
 			got := h.Sum(nil)
 			want := verifC03Ref(pspan, pd, capacity)
-			x.Check(bytes.Equal(got, want), "hash-mismatch-fresh", "prior hash (segments %d, length %d, one write, fresh tree): got %x want %x", conf.segs, pl, got, want)
+			x.Check(bytes.Equal(got, want), map[bool]string{false: "hash-mismatch-fresh", true: "hash-mismatch-caller-buffer-reused"}[scratch], "prior hash (segments %d, length %d, one write, fresh tree): got %x want %x", conf.segs, pl, got, want)
 			reuse(prior.putget)
 			if pl > l {
 				x.Tag("stale-buffer-longer-than-data")
@@ -359,7 +399,7 @@ func TestVerifC03Data(t *testing.T) {
 			if len(split) == 0 && l == 0 {
 				break
 			}
-			n, err := h.Write(data[from:c])
+			n, err := write(data[from:c])
 			x.Check(err == nil && n == c-from, "write-short", "Write(data[%d:%d]) = %d, %v", from, c, n, err)
 			if c == from {
 				x.Tag("empty-write")
@@ -379,6 +419,10 @@ func TestVerifC03Data(t *testing.T) {
 			key = "hash-mismatch-after-reset"
 		case len(split) > 0:
 			key = "hash-mismatch-split-write"
+		}
+		if scratch {
+			key = "hash-mismatch-caller-buffer-reused"
+			x.Nontrivial()
 		}
 		x.Check(err == nil, "hash-error", "Hash: %v", err)
 		x.Check(bytes.Equal(got, want), key, "segments %d capacity %d length %d span %s split %v prior %s: got %x want %x",
@@ -411,7 +455,7 @@ func TestVerifC03Data(t *testing.T) {
 		post := verifC03Data(capacity, 3)
 		pspan := []byte{9, 8, 7, 6, 5, 4, 3, 2}
 		h.SetHeader(pspan)
-		_, err = h.Write(post)
+		_, err = write(post)
 		x.Check(err == nil, "write-error", "post Write: %v", err)
 		got, err = h.Hash(nil)
 		x.Check(err == nil, "hash-error", "post Hash: %v", err)
@@ -420,7 +464,7 @@ func TestVerifC03Data(t *testing.T) {
 			pw = verifC03Ref(pspan, post, capacity)
 			postRef[capacity] = pw
 		}
-		x.Check(bytes.Equal(got, pw), "hash-mismatch-full-after-reuse", "full-capacity hash after (length %d split %v): got %x want %x", l, split, got, pw)
+		x.Check(bytes.Equal(got, pw), map[bool]string{false: "hash-mismatch-full-after-reuse", true: "hash-mismatch-caller-buffer-reused"}[scratch], "full-capacity hash after (length %d split %v): got %x want %x", l, split, got, pw)
 		pool.Put(h)
 	})
 }
